@@ -460,13 +460,24 @@ class RealStore:
 
 
 # ---------------------------------------------------------------------- random histories (not model driven)
+def crash_event(real, evs):
+    """An exception escaped from one of the library's own processes: the trace ends with an event of kind "x" that
+    carries the last observation (the object is not touched again)."""
+    ev = real.blank("x")
+    last = next((e for e in reversed(evs) if "trig" in e), None)
+    for k in ("trig", "ready", "cp", "cg", "occ", "q"):
+        ev[k] = last[k] if last is not None and k in last else {"trig": [], "ready": [], "cp": 2, "cg": 2, "occ": -1, "q": False}[k]
+    ev["q"] = False
+    return ev
+
+
 def random_history(real, rng, nsteps, prios=(0,), filters=(1,), tags=(0,), delays=(0,), nprocs=2, p_ill=0.12,
-                   p_tick=0.15, max_live=8):
+                   p_tick=0.15, max_live=8, out=None):
     """Extend the trace of `real` by up to nsteps random API calls / ticks chosen from what is alive in
     the REAL object (tokens by global id).  Mostly well-formed calls, some ill-formed ones.  Used for long
     histories beyond the model bound and to keep observing after a walk left the model (drift)."""
-    evs = []
-    timed = real.kind in ("buffer", "fleet", "filter")
+    evs = out if out is not None else []      # `out`: the events recorded so far survive an exception
+    timed = real.kind in ("buffer", "fleet", "filter", "conveyor", "slotted")
     for _ in range(nsteps):
         live = [t for t in real.tokens if t["state"] == "live"]
         gput = [t for t in live if t["kind"] == "put" and t["ev"].triggered]
@@ -481,6 +492,12 @@ def random_history(real, rng, nsteps, prios=(0,), filters=(1,), tags=(0,), delay
         ops = []
         if len(live) < max_live:
             ops += ["rp", "rg", "rp", "rg"]
+            if real.kind == "conveyor" and any(t["kind"] == "put" for t in live):
+                # known finding of C12 (continuous conveyor): space reservations are granted without regard to the
+                # reservations already granted, items that enter too close make the belt's placement logic raise.
+                # One space reservation at a time here (a single upstream producer), so that everything else about the
+                # continuous conveyor is still judged.
+                ops = [o for o in ops if o != "rp"]
         if gput:
             ops += ["put"] * 4
         if gget:
